@@ -30,7 +30,9 @@ END == 1000
 
 \* ---- what the crate's *design* says about each token kind ------------------
 \* destructor: borrow lasts to end of scope unless the token is dropped / moved earlier
-HasDrop(k) == k \in {"Vec", "String", "Box", "VecIntoIter", "Drain", "Splice", "DrainFilter", "StrDrain", "HiddenVec"}
+HasDrop(k) == k \in {"Vec", "String", "Box", "VecIntoIter", "Drain", "Splice", "DrainFilter", "StrDrain", "HiddenVec", "BoxedSlice"}
+\* (plain references obtained by conversion -- Box::leak, Vec::into_bump_slice, String::into_bump_str -- are
+\*  ordinary tokens: no destructor, cannot reach the arena, but carry its lifetime all the same)
 \* exclusive borrow of the arena
 Exclusive(k) == k = "ChunkIter"
 \* can call back into the arena (holds &Bump, or a pointer to something that does and uses it)
@@ -42,6 +44,8 @@ IsSync(k) == ~Reaches(k)
 SyncDontCare(k) == k \in {"Splice", "DrainFilter", "StrDrain", "RawIter", "ChunkIter"}
 \* kinds that are created from a hidden Vec/String (which itself borrows the arena to scope end)
 Derived(k) == k \in {"Drain", "Splice", "DrainFilter", "StrDrain"}
+\* shared references are Copy: dropping or sending them does not consume the token
+IsCopy(k) == k \in {"BumpSlice", "BumpStr"}
 
 \* ---- statements --------------------------------------------------------------
 Mk(k) == [s |-> "mk", k |-> k, t |-> 0]
@@ -59,13 +63,13 @@ CreatedAt(p, t) == CreatedAtFrom(p, t, 1, 0)
 KindOf(p, t) == p[CreatedAt(p, t)].k
 
 Mentions(st, t) == st.s \in {"use", "droptok", "sendtok", "synctok"} /\ st.t = t
-Consumes(st, t) == st.s \in {"droptok", "sendtok"} /\ st.t = t
+ConsumesK(st, t, k) == st.s \in {"droptok", "sendtok"} /\ st.t = t /\ ~IsCopy(k)
 TouchesArena(st) == st.s \in {"mk", "reset", "itermut", "allocmore", "droparena", "sendarena", "sharearena"}
 NeedsExclusive(st) == st.s \in {"reset", "itermut", "droparena", "sendarena"} \/ (st.s = "mk" /\ Exclusive(st.k))
 MovesArena(st) == st.s \in {"droparena", "sendarena"}
 
 \* statement index at which token t is consumed (0 = never)
-ConsumedAt(p, t) == LET S == {i \in 1..Len(p) : Consumes(p[i], t)} IN IF S = {} THEN 0 ELSE CHOOSE i \in S : \A j \in S : i <= j
+ConsumedAt(p, t) == LET S == {i \in 1..Len(p) : ConsumesK(p[i], t, KindOf(p, t))} IN IF S = {} THEN 0 ELSE CHOOSE i \in S : \A j \in S : i <= j
 LastMention(p, t) == LET S == {i \in 1..Len(p) : Mentions(p[i], t)} IN IF S = {} THEN CreatedAt(p, t) ELSE CHOOSE i \in S : \A j \in S : i >= j
 \* the arena borrow held on behalf of token t ends here
 LiveEnd(p, t) ==
